@@ -105,14 +105,89 @@ def expand_arms(arms):
     return out
 
 
+_SEM_DONE = set()
+
+
+def dispatch_semantic(F, fn, prefix, write):
+    """read_protocol / write_protocol interpreted for every protocol version with the codecs and conversions as observation points: version K
+    must be decoded by VersionK's own read and lifted by from_version_K (resp. lowered by to_version_K and written by VersionK's write), once.
+    -> {variant: message or None}; raises Unsupported when not interpretable"""
+    from ..minieval import Mini
+    out = {}
+    PV = "wow_login_messages::manual::protocol_version::ProtocolVersion::"
+    pv_adt = next((a for a in F.all("adt") if a["path"].endswith("::ProtocolVersion")), None)
+    pvp = (pv_adt["path"].replace("crate::", "wow_login_messages::") + "::") if pv_adt else PV
+    for var, K in VERS.items():
+        m = Mini({"wow_login_messages": F}, "wow_login_messages")
+        log = []
+
+        def codec(args, node, log=log):
+            ga = (H.call_gargs(node) if H.tag(H.strip(node)) == "call" else H.mcall(node)["gargs"])
+            mk = re.search(r"Version(\d+)$", ga[0]) if ga else None
+            ver = int(mk.group(1)) if mk else (8 if ga and ga[0] == "Self" else None)
+            log.append((ver, args))
+            return ("Ok", ("decoded", ver)) if not write else ("Ok", ())
+        codec.with_node = True
+        ov = {f"::Message::{prefix}read": codec, f"::Message::{prefix}write": codec}
+        for k in VERS.values():
+            ov[f"::from_version_{k}"] = (lambda k: (lambda a: ("lifted", k, a[0])))(k)
+            ov[f"::to_version_{k}"] = (lambda k: (lambda a: ("lowered", k, a[0])))(k)
+        m.overrides = ov
+        pv = ("variant", pvp + var)
+        args = [("selfmsg",), ("w",), pv] if write else [("r",), pv]
+        res = m.call_fn(fn["path"], args)
+        if isinstance(res, tuple) and res and res[0] == "closure":
+            res = m.apply(res, [])
+        if write:
+            want_recv = ("selfmsg",) if K == 8 else ("lowered", K, ("selfmsg",))
+            if len(log) != 1 or log[0][0] != K:
+                out[var] = f"the message is written by the codec of version(s) {[x[0] for x in log]}, it must be written once by version {K}'s"
+            elif _deref(log[0][1][0]) != want_recv:
+                out[var] = f"version {K}'s writer is given {_deref(log[0][1][0])}, it must be {'self' if K == 8 else f'self.to_version_{K}()'}"
+            elif res != ("Ok", ()):
+                out[var] = f"the result of the writer is not returned ({str(res)[:60]})"
+            else:
+                out[var] = None
+        else:
+            want = ("Ok", ("decoded", 8)) if K == 8 else ("Ok", ("lifted", K, ("decoded", K)))
+            if len(log) != 1 or log[0][0] != K:
+                out[var] = f"the bytes are decoded by the codec of version(s) {[x[0] for x in log]}, they must be decoded once by version {K}'s"
+            elif res != want:
+                out[var] = f"the decoded version-{K} message is returned as {str(res)[:80]}, it must be {'the message itself' if K == 8 else f'Self::from_version_{K}(..)'}"
+            else:
+                out[var] = None
+    return out
+
+
+def _deref(v):
+    return v.get() if hasattr(v, "get") else v
+
+
 def check_dispatch(ctx, F):
     n = 0
+    from ..minieval import Unsupported, Panic
+    for prefix in ("", "tokio_", "astd_"):
+        for write in (False, True):
+            key = f"{prefix}{'write' if write else 'read'}_protocol"
+            fn0 = F.fn(f"{TRAIT}::{key}")
+            if fn0 is None:
+                continue
+            try:
+                res = dispatch_semantic(F, fn0, prefix, write)
+            except (Unsupported, Panic) as e_:
+                continue
+            _SEM_DONE.add(key)
+            for var, msg in res.items():
+                if msg:
+                    ctx.violate("coll.dispatch", f"{key}|{var}", f"{key}: for ProtocolVersion::{var} {msg}", fn0["file"], fn0["line"])
     for prefix in ("", "tokio_", "astd_"):
         # --- read
         fn = F.fn(f"{TRAIT}::{prefix}read_protocol")
         key = f"{prefix}read_protocol"
         if fn is None:
             ctx.violate("coll.dispatch", f"anchor|{key}", f"CollectiveMessage::{key} not found")
+        elif key in _SEM_DONE:
+            n += 1
         else:
             n += 1
             m = proto_match(fn["hir"])
@@ -152,6 +227,8 @@ def check_dispatch(ctx, F):
             ctx.violate("coll.dispatch", f"anchor|{key}", f"CollectiveMessage::{key} not found")
             continue
         n += 1
+        if key in _SEM_DONE:
+            continue
         m = proto_match(fn["hir"])
         seen = {}
         if m is None or H.local_name(m[1]) != "protocol_version":
@@ -201,7 +278,13 @@ def check_dispatch(ctx, F):
                       and H.local_name(H.strip_refs(args[0])) == "r" and H.local_name(args[1]) == "protocol_version")
             if not ok:
                 ctx.violate("coll.dispatch", f"{name}|call", f"{name}: does not call M::{prefix}read_protocol(&mut r, protocol_version) exactly once", fn["file"], fn["line"])
-            # opcode gate
+            # opcode gate (decided by interpretation in login.expect when that was possible)
+            try:
+                from ..minieval import Unsupported, Panic
+                if login_expect_semantic(F, fn, prefix, "read_protocol", True) is None:
+                    continue
+            except (Unsupported, Panic):
+                pass
             conds = [H.strip(x[1]) for x in H.walk(body) if H.tag(x) == "if"]
             gate = any(H.tag(c) == "bin" and c[2] == "Eq" and {H.local_name(c[4]) or H.path_of(c[4]), H.local_name(c[5]) or H.path_of(c[5])} == {"opcode", "crate::Message::OPCODE"} for c in conds)
             if not gate:
@@ -257,6 +340,47 @@ def collect_impls(F):
     return impls
 
 
+_LOGIN_SEM = set()
+
+
+def login_expect_semantic(F, fn, prefix, callee, proto):
+    """the helper interpreted on a stream that starts with the opcode byte, with M::OPCODE = 0x12 and the decoder as an observation point:
+    byte 0x12 -> exactly one byte consumed before the decoder runs once on the same reader (with the caller's protocol version) and its
+    result is returned; bytes 0x13, 0x02, 0x00, 0xff -> one byte consumed, no decode, Err(ExpectedOpcodeError::Opcode(byte)).
+    -> message or None; raises Unsupported when not interpretable"""
+    from ..minieval import Mini, Stream
+    for byte in (0x12, 0x13, 0x02, 0x00, 0xFF):
+        m = Mini({"wow_login_messages": F}, "wow_login_messages")
+        m.consts = {"crate::Message::OPCODE": 0x12}
+        st = Stream([byte, 0x55, 0x66, 0x77])
+        log = []
+
+        def dec(a, log=log, st=st):
+            log.append((st.pos, [_deref(x) for x in a]))
+            return ("Ok", ("decoded",))
+        m.overrides = {f"::Message::{prefix}{callee}": dec, f"::CollectiveMessage::{prefix}{callee}": dec}
+        pv = ("variant", "wow_login_messages::manual::protocol_version::ProtocolVersion::Five")
+        res = m.call_fn(fn["path"], [st] + ([pv] if proto else []))
+        if isinstance(res, tuple) and res and res[0] == "closure":
+            res = m.apply(res, [])
+        if byte == 0x12:
+            if len(log) != 1 or res != ("Ok", ("decoded",)):
+                return f"a stream that starts with M::OPCODE is not decoded exactly once with the decoder's result returned (decoder calls: {len(log)}, result {str(res)[:60]})"
+            if log[0][0] != 1:
+                return f"the decoder starts after {log[0][0]} byte(s) of the stream were consumed, the opcode is one byte"
+            if log[0][1][0] is not st or (proto and log[0][1][-1] != pv):
+                return "the decoder is not given the caller's reader" + (" and protocol version" if proto else "")
+        else:
+            ok = isinstance(res, tuple) and res[0] == "Err" and isinstance(res[1], tuple) and res[1][0] == "variant" and str(res[1][1]).endswith("ExpectedOpcodeError::Opcode") and list(res[1][2]) == [byte]
+            if log:
+                return f"a stream that starts with opcode {byte:#x} is decoded as M although M::OPCODE is 0x12"
+            if not ok:
+                return f"for the opcode byte {byte:#x} (M::OPCODE = 0x12) the helper does not return ExpectedOpcodeError::Opcode({byte}): {str(res)[:100]}"
+            if st.pos != 1:
+                return f"{st.pos} bytes are consumed before the opcode mismatch is reported, the opcode is one byte"
+    return None
+
+
 def check_login_expect(ctx):
     """login.expect (shared by C04 and C01): the typed login expect helpers - plain and protocol-parameterised, 3 flavours - read
     one opcode byte, decode M only when it equals M::OPCODE (the read sits in the then-branch of exactly that test) and otherwise
@@ -273,6 +397,15 @@ def check_login_expect(ctx):
                     ctx.violate("login.expect", f"anchor|{name}", f"{module}::{name} not found (anchor disappeared)")
                     continue
                 n += 1
+                try:
+                    from ..minieval import Unsupported, Panic
+                    why = login_expect_semantic(F, fn, prefix, callee, bool(suffix))
+                    if why:
+                        ctx.violate("login.expect", f"{name}|gate", f"{name}: {why}", fn["file"], fn["line"])
+                    _LOGIN_SEM.add(name)
+                    continue
+                except (Unsupported, Panic):
+                    pass
                 body = H.unwrap_async(fn["hir"])
                 # the opcode byte
                 lets = [x for x in H.walk(body) if isinstance(x, list) and x and x[0] == "let" and H.tag(x[1]) == "bind" and x[1][1] == "opcode"]
